@@ -87,7 +87,7 @@ CHECK = {
     "lean_modules": ["P3R.Props.C11", "P3R.Props.C11Packed", "P3R.Props.C11Sched"],
     "lean_exes": ["p3r_driver_c11"],
     "theorems": ["P3R.C11.laneAdd_iff", "P3R.C11.laneEq_iff", "P3R.C11.laneMulAdd_iff", "P3R.C11.laneBool_iff",
-                 "P3R.C11.hornerSingle_iff", "P3R.C11.lane_zero_sel", "P3R.C11.extMulBinomial_eval_D2",
+                 "P3R.C11.hornerSingle_iff", "P3R.C11.lane_zero_sel", "P3R.C11.send_accepts_every_row", "P3R.C11.send_value_is_main_cell", "P3R.C11.extMulBinomial_eval_D2",
                  "P3R.C11.extMulBinomial_eval_D4", "P3R.C11.extMulBinomial_eval_D5", "P3R.C11.extMulBinomial_eval_D8", "P3R.C11.extMulQuintic_eval", "P3R.C11.packed2_iff", "P3R.C11.packed3_iff",
                  # every arity: the `while s < kk` legs of the model (packedLegs, D = 1) accept exactly chains of single steps
                  "P3R.C11.packedLegs_one_succ", "P3R.C11.packedLegs_sound", "P3R.C11.packedLegs_complete",
@@ -95,7 +95,7 @@ CHECK = {
                  "P3R.C11.packed_net", "P3R.C11.sched_net", "P3R.C11.computeSchedule_tested", "P3R.C11.splitChains_cover",
                  "P3R.C11.computeSchedule_cover", "P3R.C11.schedule_preserves_bus"],
     "run": run,
-    "trusted_base": ["Const/Public tables have no row constraints (interaction shape only, covered by C09); recompose and Poseidon circuit AIRs are not modelled in Lean (see DESIGN)"],
+    "trusted_base": ["the Poseidon1/Poseidon2 circuit AIRs are not modelled here (C06 models the sponge-chaining constraints of the compact D=1 table); Const / Public (WitnessSendAir) and recompose tables are modelled (no constraints, interactions) and compared value-by-value like the ALU table"],
     "assumptions": ["packed Horner legs are proved for every arity at D = 1 (packedLegs_sound/complete); for packed legs at D > 1 the tie is the value-exact correspondence and the tamper oracle only"],
 }
 
@@ -104,5 +104,5 @@ MANIFEST_ENTRY = {
     "evidence_file": "evidence/C11.json", "replay_cmd_template": "bin/check C11 --replay {path}", "engine": "lean-models",
     "technique": "Lean 4 iff-theorems over a model of AluAir::eval + value-exact correspondence with a recording AirBuilder",
     "level_claimed": {"category": "proof", "text": "per-kind row iff theorems (all D), extension product specs (binomial D=2,4,5,8, quintic trinomial), packed Horner legs of every arity (D=1: packedLegs_sound / packedLegs_complete over the model function itself); the model's constraint and interaction values equal the real AluAir::eval's on random windows for every configuration; relation oracles on structured rows and tampered scheduled traces.", "design_ref": "4/C11"},
-    "level_note": "ALU table only is modelled; Poseidon/recompose AIRs not modelled; packed arities at D>1 by correspondence only",
+    "level_note": "ALU, Const/Public and recompose tables modelled; Poseidon AIRs not modelled; packed arities at D>1 by correspondence only",
 }
